@@ -895,3 +895,32 @@ Theorem C17_restriction_outcome_real_partial :
         exists id ir, items_get m p = Some (id, ir) /\ type_ir_tokens s ir' = type_ir_tokens s ir.
 Proof. exact V.Proofs.RestrictionReal.restriction_outcome_real. Qed.
 Print Assumptions C17_restriction_outcome_real_partial.
+
+(** ** the inverse renumbering (Proofs/RenumberInverse.v): a closed registry with ids = positions
+    can be renumbered back, so every transfer along [renumber pi] is an equivalence there *)
+From V Require Proofs.RenumberInverse.
+
+Theorem C17_inverse_is_renumbering :
+  forall pi n, renumbering (N.of_nat n) pi ->
+    renumbering (N.of_nat n) (V.Proofs.RenumberInverse.inv_renumbering pi n).
+Proof. exact V.Proofs.RenumberInverse.inv_renumbering_is_renumbering. Qed.
+Print Assumptions C17_inverse_is_renumbering.
+
+Theorem C17_renumber_inverse :
+  forall pi r,
+    renumbering (N.of_nat (List.length r)) pi -> ids_consistent r = true -> closed r ->
+    renumber (V.Proofs.RenumberInverse.inv_renumbering pi (List.length r)) (renumber pi r) = r.
+Proof. exact V.Proofs.RenumberInverse.renumber_inverse. Qed.
+Print Assumptions C17_renumber_inverse.
+
+(** "[Ok] iff [Ok]": on a closed registry with ids = positions, generation with the real
+    comparison succeeds iff it succeeds on the renumbered registry.  PARTIAL: the equivalence
+    hypothesis [teq_equiv_on_families r]. *)
+Theorem C17_generate_ok_iff_partial :
+  forall pi r s,
+    renumbering (N.of_nat (List.length r)) pi -> ids_consistent r = true -> closed r ->
+    V.Model.DedupPerm.teq_equiv_on_families r ->
+    ((exists m, generate r s (types_equal r) = Ok m) <->
+     (exists m', generate (renumber pi r) s (types_equal (renumber pi r)) = Ok m')).
+Proof. exact V.Proofs.RenumberInverse.generate_ok_iff_renumber. Qed.
+Print Assumptions C17_generate_ok_iff_partial.
